@@ -221,6 +221,7 @@ func init() {
 			needBlocks = haveBlocks
 			rerr = err
 		}
+		e.touch(p.arr, p.off, p.off+avail)
 		for i := 0; i < avail; i++ {
 			p.arr[p.off+i] = tarContentByte(ent.fill, o.off+i)
 		}
